@@ -8,6 +8,7 @@ import (
 	"strconv"
 
 	"vh/core"
+	"vh/outmon"
 	"vh/scen"
 )
 
@@ -86,4 +87,22 @@ func GenByProfile(profile string, seed int64, i int, id string) *scen.Scenario {
 	default:
 		return scen.GenBroad(r, scen.Broad(), id, id)
 	}
+}
+
+// DebugPlan prints the observed plan of the output in <modroot>/<pkgrel>/setup.gen.go: plan <modroot> <pkgrel>
+func DebugPlan(args []string) int {
+	root, rel := args[0], args[1]
+	errs, ld, l := outmon.CheckOutput(scen.ModName, root, scen.ModName+"/"+rel, filepath.Join(root, rel, "setup.gen.go"), nil)
+	fmt.Println("type errors:", errs)
+	for i, n := range ld.Names {
+		if n == "setup.gen.go" {
+			for _, p := range outmon.ExtractPlans(l.Fset, ld.Files[i], ld.Info) {
+				fmt.Println("func", p.Key())
+				for _, it := range p.Items {
+					fmt.Printf("  %-8s %-20s %s\n", it.Kind, it.PathStr(), Canon(it.RHS, map[string]string{}))
+				}
+			}
+		}
+	}
+	return 0
 }
